@@ -39,7 +39,10 @@ class Operator(Token):
             )
         left, right = self.left.solve(), self.right.solve()
         try:
-            return self.solve_operand(left, right)
+            solution = self.solve_operand(left, right)
+            if isinstance(solution, float) and solution.is_integer():
+                solution = int(solution)
+            return solution
         except TypeError:
             raise MismatchError(
                 self.stack,
